@@ -66,8 +66,8 @@ def main():
         }
         with open(os.path.join(d, "meta.json"), "w") as f:
             json.dump(meta, f, indent=1)
-        rows.append((sid, prop, change.split(":")[0], caught.get("check", "-"), caught.get("clause", "-"), caught.get("tier", "-")))
-    table = "| seeded change | property | site | caught by | oracle clause | tier / runs |\n|---|---|---|---|---|---|\n" + "\n".join(f"| {a} | {b} | `{c}` | {d} | {e} | {f} |" for a, b, c, d, e, f in rows)
+        rows.append((sid, prop, change.split(":")[0], caught.get("check", "-"), caught.get("clause", "-"), caught.get("tier", "-"), caught.get("final", "tried against the checks of session 3 (see tier / runs)")))
+    table = "| seeded change | property | site | caught by | oracle clause | tier / runs | re-run against the final checks |\n|---|---|---|---|---|---|---|\n" + "\n".join(f"| {a} | {b} | `{c}` | {d} | {e} | {f} | {g} |" for a, b, c, d, e, f, g in rows)
     with open(os.path.join(V, "seeded", "README.md"), "w") as f:
         f.write("# Seeded breaking changes and which check catches which\n\n"
                 "Each directory holds patch.diff (applies to /repo HEAD), a demonstration that fails with the patch and passes without,\n"
